@@ -12,7 +12,9 @@ import (
 	"golang.org/x/tools/go/ssa/ssautil"
 )
 
-const repoDir = "/repo"
+// repoDir is the tree that is analysed: /repo, unless SYMGO_REPO points at a scratch copy (used
+// by tools/try_seed.sh so that a seeded change never touches /repo itself)
+var repoDir = "/repo"
 const modPath = "github.com/cloudwego/hertz"
 
 var verifDir = "/verif"
